@@ -23,6 +23,7 @@ import (
 	"k8s.io/apimachinery/pkg/runtime/schema"
 	"sigs.k8s.io/controller-runtime/pkg/client"
 
+	"github.com/AliyunContainerService/terway/daemon"
 	"github.com/AliyunContainerService/terway/types"
 	tdaemon "github.com/AliyunContainerService/terway/types/daemon"
 
@@ -70,6 +71,10 @@ func runC09(c *ctxT) {
 		r.Inconclusive("C09 child is not in a private network namespace (eth0 visible)")
 		return
 	}
+	if os.Getenv("VERIF_C09_LOOP_ONLY") != "" { // (diagnosis)
+		c09LoopCase(c)
+		return
+	}
 	base := r.Seed*7919 + int64(c.Batch)*1000003
 	sem := make(chan struct{}, 1) // cases share the netns of this child (planted rules): one at a time
 	var wg sync.WaitGroup
@@ -83,6 +88,76 @@ func runC09(c *ctxT) {
 		}(i)
 	}
 	wg.Wait()
+	if c.Thorough && c.Batch == 0 {
+		c09LoopCase(c)
+	}
+}
+
+// c09LoopCase (thorough tier only: it needs one real period of wall clock): the daemon's own periodic collector is
+// started, its first pass fails (the node's pod list is refused once). The loop must still be there one period
+// later: a second listing of the node's pods has to arrive. The deadline (period + 120 s) is a watchdog on a 5-minute
+// timer, two orders of magnitude above what the pass itself takes.
+func c09LoopCase(c *ctxT) {
+	r := c.R
+	cfg := poolCfg{V4: true, Slots: 2, Cap: 10, Batch: 5, Pre: []int{4}, PreV6: []int{0}, MinIdle: 0, MaxIdle: 30, Policy: "most_ips", KernelMAC: true, LatencyUS: 200}
+	d, err := newDHist(c, "C09", 990001, cfg, r.Seed, types.IPAMTypeDefault)
+	if err != nil {
+		r.Inconclusive(fmt.Sprintf("loop case: %v", err))
+		return
+	}
+	defer d.stop()
+	defer os.RemoveAll(d.dir)
+	for i := 0; i < 2; i++ {
+		d.ensurePod(i, false)
+		if res := d.rpcAdd(context.Background(), i, "c0"); res.Err != nil {
+			r.Inconclusive(fmt.Sprintf("loop case: setup ADD failed: %v", res.Err))
+			return
+		}
+	}
+	d.deletePod(0)
+	var mu sync.Mutex
+	lists, refused := 0, 0
+	d.hooks.Set(func(h *apisim.Hooks) {
+		h.BeforeList = func(ctx context.Context, list client.ObjectList) error {
+			if _, ok := list.(*corev1.PodList); !ok {
+				return nil
+			}
+			mu.Lock()
+			defer mu.Unlock()
+			lists++
+			if lists == 1 {
+				refused++
+				return apierrors.NewServiceUnavailable("injected: apiserver unavailable")
+			}
+			return nil
+		}
+	})
+	ctx, cancel := context.WithCancel(context.Background())
+	defer cancel()
+	go d.svc.VerifRunGCLoop(ctx)
+	period := daemon.VerifGCPeriod()
+	deadline := time.Now().Add(period + 120*time.Second)
+	seen := 0
+	for time.Now().Before(deadline) {
+		time.Sleep(2 * time.Second)
+		mu.Lock()
+		seen = lists
+		mu.Unlock()
+		if seen >= 2 {
+			break
+		}
+	}
+	r.Eval(1)
+	r.Count("collector_loop_cases", 1)
+	r.DistinctKey("c09/loop/first-pass-refused")
+	switch {
+	case refused == 0:
+		r.Inconclusive("loop case: the collector's first pass never listed the node's pods")
+	case seen < 2:
+		r.Violate("C09.collection-stopped-after-failed-pass", "loop", fmt.Sprintf("the periodic collector's first pass failed (pod list refused); %s later (period %s + 120 s) it has not listed the node's pods again: the loop is gone and nothing will be collected any more", period+120*time.Second, period), map[string]any{"lists": seen})
+	default:
+		r.Count("collector_loop_survived_failed_pass", 1)
+	}
 }
 
 func c09Case(c *ctxT, hid int, seed int64) {
